@@ -176,6 +176,13 @@ func ruleErrProp(p *Program, r *Reporter) {
 									if !errSucc.Dominates(bb) {
 										continue
 									}
+									// the error branch must not fall back into the normal flow
+									for _, s := range bb.Succs {
+										if !errSucc.Dominates(s) && !swallowed {
+											swallowed = true
+											r.Fail(key, p.Pos(iff.Pos()), "the branch taken when this call's error is non-nil falls through to the code after it instead of returning the error: the failure is dropped and the function carries on")
+										}
+									}
 									ret, ok := terminator(bb).(*ssa.Return)
 									if !ok {
 										continue
